@@ -1,11 +1,16 @@
 #!/bin/bash
 # tools/run_seeds.sh [seed-name...]  - runs every check (quick tier) against every seeded change (on scratch copies,
-# never on /repo), writes seeded/RESULTS.txt and fills detected_by / silent in each meta.json.
+# never on /repo), writes seeded/RESULTS.txt and fills detected_by / silent in each meta.json (silent = run and silent;
+# checks that were not run for a seed appear in neither list).
 cd /verif
 names=${*:-$(ls seeded | grep -v RESULTS)}
 for n in $names; do
   [ -f seeded/$n/patch.diff ] || continue
-  line=$(SKIP_SUITE=1 tools/mutant.sh $n /verif/seeded/$n/patch.diff 2>&1 | grep "^$n:")
+  # CHECKS="C01 C14 ..." limits the checks that are run (the seed's own property is always among them); default: all twenty
+  own=$(python3 -c "import json;print(json.load(open('/verif/seeded/$n/meta.json'))['property'])")
+  list=""
+  if [ -n "${CHECKS:-}" ]; then list=$(echo "$own $CHECKS" | tr ' ' '\n' | sort -u | tr '\n' ' '); fi
+  line=$(SKIP_SUITE=1 tools/mutant.sh $n /verif/seeded/$n/patch.diff $list 2>&1 | grep "^$n:")
   echo "$line"
   python3 - "$n" "$line" <<'PY'
 import json,sys,re
